@@ -29,7 +29,7 @@ from .harness import Emitter
 from .p11 import P11, rvname, Mech
 from .tlaval import parse_call
 
-SO, USER = b"conc-so-pin", b"conc-user-pin"
+SO, USER = b"conc-so-pin", b"conc-user-pin"      # (USER is PINS["P0"])
 HANG = 25.0
 
 # ---- thread programs: (call, object number k, extra)
@@ -58,7 +58,21 @@ PROGRAMS = {
     "s": [("open",), ("create", 1, "tok"), ("set", 1), ("get", 1), ("close",)],
     "f": [("open",), ("findall",), ("findall",), ("close",)],
     "h": [("open",), ("create", 1, "tok"), ("get", 1), ("destroy", 1), ("close",)],
+    # ---- the shared token state (ConcTok.tla): login state, last-session logout, the user PIN.  No base session.
+    "Lc": [("open",), ("login", "P0"), ("close",)],
+    "Lo": [("open",), ("login", "P0"), ("sessinfo",), ("close",)],
+    "Lv": [("open",), ("login", "P0"), ("createpriv",), ("sessinfo",), ("close",)],
+    "Ll": [("open",), ("login", "P0"), ("logout",), ("sessinfo",), ("close",)],
+    "Lp": [("open",), ("setpin", "P0", "P1"), ("close",)],
+    "Lq": [("open",), ("setpin", "P0", "P2"), ("login", "P2"), ("close",)],
+    "Lr": [("open",), ("login", "P0"), ("setpin", "P0", "P1"), ("sessinfo",), ("close",)],
+    "Lx": [("open",), ("login", "PX"), ("login", "P1"), ("sessinfo",), ("close",)],
 }
+PINS = {"P0": b"conc-user-pin", "P1": b"conc-pin-one", "P2": b"conc-pin-two2", "PX": b"conc-wrong-pin"}
+
+
+def shared_family(progs):
+    return any(len(c) > 0 and c[0] in ("login", "logout", "setpin", "createpriv") for pr in progs for c in pr)
 
 
 def conf(wd):
@@ -264,6 +278,7 @@ class Run(object):
 
     def __init__(self, p, slot, progs, sched, em, free=False):
         self.p, self.slot, self.progs, self.sched, self.em, self.free = p, slot, progs, sched, em, free
+        self.shared = shared_family(progs)
         self.loglock = threading.Lock()
         self.events = []
         self.h2o = {}
@@ -281,7 +296,7 @@ class Run(object):
             hnd = {}
             for call in prog:
                 c = call[0]
-                k = call[1] if len(call) > 1 else 0
+                k = call[1] if len(call) > 1 and isinstance(call[1], int) else 0
                 o = t * 10 + k if k else 0
                 if not self.free:
                     if sc.mode == "calibrate":
@@ -291,9 +306,29 @@ class Run(object):
                 ev = dict(e="Inv", t=t, c=c, o=o)
                 if c == "create":
                     ev["tok"] = call[2] == "tok"
+                if c in ("login", "setpin"):
+                    ev.update(o=0, a=call[1], b=call[2] if len(call) > 2 else "")
                 self.log(ev)
                 r = dict(e="Ret", t=t, c=c, o=o)
-                if c == "open":
+                if c in ("login", "setpin"):
+                    r["o"] = 0
+                if c == "login":
+                    rv = p.login(s, K.CKU_USER, PINS[call[1]])
+                    r.update(rv=rvname(rv))
+                elif c == "logout":
+                    rv = p.logout(s)
+                    r.update(rv=rvname(rv))
+                elif c == "setpin":
+                    rv = p.set_pin(s, PINS[call[1]], PINS[call[2]])
+                    r.update(rv=rvname(rv))
+                elif c == "createpriv":
+                    # (no byte-string attribute: nothing to encrypt, the answer depends on the login state alone)
+                    rv, g = p.create_object(s, [(K.CKA_CLASS, K.CKO_DATA), (K.CKA_TOKEN, False), (K.CKA_PRIVATE, True)])
+                    r.update(rv=rvname(rv))
+                elif c == "sessinfo" and self.shared:
+                    rv, si = p.session_info(s)
+                    r.update(rv=rvname(rv), st=p11.statename(si["state"]) if rv == 0 else "")
+                elif c == "open":
                     rv, s = p.open_session(self.slot, True)
                     r.update(rv=rvname(rv), h=int(s))
                 elif c == "close":
@@ -470,10 +505,14 @@ def execute(lib, p, sched, wd, template, progs, mode, schedule, em, b):
     if rv:
         raise RuntimeError("C_Initialize: " + rvname(rv))
     slot = the_slot(p)
+    shared = shared_family(progs)
     rv, base = p.open_session(slot, True)
     rv = p.login(base, K.CKU_USER, USER)
     if rv:
         raise RuntimeError("login: " + rvname(rv))
+    if shared:
+        # the threads own ALL sessions of the token: the last one of them to close its session logs the token out
+        p.close_session(base)
     if not free:
         sched.mode = mode
     run = Run(p, slot, progs, sched, em, free)
@@ -497,6 +536,14 @@ def execute(lib, p, sched, wd, template, progs, mode, schedule, em, b):
         em.flush()
         em.close()
         os._exit(0)            # threads are stuck inside the library: this process cannot go on
+    if shared:
+        # what a single thread finds afterwards: the state of a new session, and the PIN that logs in
+        rv, base = p.open_session(slot, True)
+        rv, si = p.session_info(base)
+        good = [sym for sym in ("P0", "P1", "P2") if p.login(base, K.CKU_USER, PINS[sym]) == 0 and p.logout(base) == 0]
+        em.emit(dict(e="Final", st=p11.statename(si["state"]) if rv == 0 else "", pin=good[0] if len(good) == 1 else "?"))
+        p.finalize()
+        return points
     # what is left afterwards (main thread, sequential)
     rv, hs = p.find(base, [(K.CKA_CLASS, K.CKO_SECRET_KEY)])
     ids = []
